@@ -521,6 +521,12 @@ class ODVariable:
             mask |= 1 << bit
         temp &= ~mask
         temp |= bit_value << min(bits)
+        if self.data_type in SIGNED_TYPES:
+            # Keep the result within the range of the signed type
+            width = len(self)
+            temp &= (1 << width) - 1
+            if temp >> (width - 1):
+                temp -= 1 << width
         return temp
 
 
